@@ -278,8 +278,10 @@ def main(argv=None) -> int:
         for h in harness_errors:
             print("HARNESS-ERROR property=%s %s" % (pid, h))
     if violations:
-        for v in violations:
+        for v in violations[:25]:
             print("VIOLATION property=%s replay=%s  # %s: %s args=%s" % (pid, v["replay"], v["obligation"], v.get("detail"), json.dumps(v.get("args"))[:400]))
+        if len(violations) > 25:
+            print("... and %d more violations (replay files written for each)" % (len(violations) - 25))
         return 1
     if harness_errors:
         return 2
